@@ -269,6 +269,33 @@ pub fn single_edits(t: &str) -> Vec<String> {
     out
 }
 
+/// single edits over a reduced alphabet (for the second edit of the double-edit family)
+pub fn single_edits_small(t: &str) -> Vec<String> {
+    const A: [char; 10] = ['"', '\'', '[', '{', '}', '%', '<', '#', '\n', '\u{e9}'];
+    let chars: Vec<char> = t.chars().collect();
+    let mut out = vec![];
+    let join = |v: &[char]| v.iter().collect::<String>();
+    for i in 0..=chars.len() {
+        if i < chars.len() {
+            let mut d = chars.clone();
+            d.remove(i);
+            out.push(join(&d));
+            for a in A {
+                let mut d = chars.clone();
+                d[i] = a;
+                out.push(join(&d));
+            }
+            out.push(join(&chars[..i]));
+        }
+        for a in A {
+            let mut d = chars.clone();
+            d.insert(i, a);
+            out.push(join(&d));
+        }
+    }
+    out
+}
+
 /// token-level edits: delete / duplicate / swap adjacent whitespace-separated tokens
 pub fn token_edits(t: &str) -> Vec<String> {
     let toks: Vec<&str> = t.split_inclusive(|c: char| c.is_whitespace()).collect();
@@ -967,6 +994,27 @@ fn mutants(thorough: bool) -> Vec<Value> {
             if k % 5 == 0 {
                 out.push(cli_case(&["validate", "-r", "@r.guard", "-d", "@d.yaml", "--structured", "-o", "sarif", "-S", "none"], json!({"r.guard": GOOD_RULES, "d.yaml": e}), "", "data-mutant-cli"));
                 out.push(cli_case(&["validate", "-r", "@r.guard", "-d", "@d.yaml", "-i", "@p.yaml"], json!({"r.guard": GOOD_RULES, "d.yaml": GOOD_DATA, "p.yaml": e}), "", "param-mutant-cli"));
+            }
+        }
+    }
+    // thorough: every pair of edits (reduced alphabet, set semantics) of the shortest rules seed and of two short documents
+    if thorough {
+        let mut seen: std::collections::BTreeSet<String> = Default::default();
+        for e1 in single_edits_small(rs[0]) {
+            for e2 in single_edits_small(&e1) {
+                if seen.insert(e2.clone()) {
+                    out.push(lib_case(&e2, GOOD_DATA, "rule-double-mutant"));
+                }
+            }
+        }
+        let mut seen: std::collections::BTreeSet<String> = Default::default();
+        for dseed in ["{\"a\": [1, \"x\"]}", "a:\n  - x\n  - !Ref e\n"] {
+            for e1 in single_edits_small(dseed) {
+                for e2 in single_edits_small(&e1) {
+                    if seen.insert(e2.clone()) {
+                        out.push(cli_case(&["validate", "-r", "@r.guard", "-d", "@d.yaml", "-S", "all"], json!({"r.guard": GOOD_RULES, "d.yaml": e2}), "", "data-double-mutant-cli"));
+                    }
+                }
             }
         }
     }
